@@ -186,8 +186,7 @@ where
             let guard = self.complete_on_unwind();
             // SAFETY: no other thread has the valid condition to iterate, they are waiting
             let iter = unsafe { self.mut_iter() };
-            let end_idx = begin_idx + n;
-            let buffer = (begin_idx..end_idx)
+            let buffer = (0..n)
                 .map(|_| iter.next())
                 .take_while(|x| x.is_some())
                 .map(|x| x.expect("is_some is checked"))
